@@ -59,10 +59,14 @@ def gen_history(rng):
     h = A.HModel()
     ops = []
 
+    assigned = {}      # the number last assigned to a variable through Var(...) / Var.value
+
     def emit(op):
         r = A.h_step(h, op)
         if r != 'skip':
             ops.append(op)
+            if op['op'] in ('var', 'setv') and r == 'ok':
+                assigned[op['id']] = op['val']
         return r
     nv = rng.irange(2, 6)
     for i in range(nv):
@@ -77,7 +81,7 @@ def gen_history(rng):
     while len(ops) < n_ops + nv and guard < 40 * n_ops:
         guard += 1
         k = rng.wpick([('con', 8), ('cond', 4), ('sub', 2), ('cdict', 1), ('cdict_add', 1), ('cdict_del', 1), ('del', 4), ('readd', 2), ('setv', 5),
-                       ('setp', 3), ('eval', 5), ('var', 1), ('dup', 0.5), ('noise', 20 * p_noise), ('on_bound', 2), ('probe_unstructured', 0.5)])
+                       ('setp', 3), ('eval', 5), ('loadx', 2.5), ('setv_again', 2.5), ('var', 1), ('dup', 0.5), ('noise', 20 * p_noise), ('on_bound', 2), ('probe_unstructured', 0.5)])
         if k == 'var':
             emit({'op': 'var', 'id': len(h.v), 'val': round(rng.uni(0.2, 3.0), 4)})
         elif k == 'sub':
@@ -126,6 +130,15 @@ def gen_history(rng):
                     emit(op)
         elif k == 'setv' and h.v:
             emit({'op': 'setv', 'id': rng.pick(sorted(h.v)), 'val': round(rng.uni(0.1, 3.0) if rng.chance(0.7) else rng.uni(-3.0, 3.0), 4)})
+        elif k == 'loadx' and h.v and h.cons:
+            vids = sorted(h.v)
+            rng.shuffle(vids)
+            emit({'op': 'loadx', 'via': rng.pick(['load', 'residuals']),
+                  'vals': [[vid, round(rng.uni(0.1, 3.0) if rng.chance(0.7) else rng.uni(-3.0, 3.0), 4)] for vid in vids[:rng.irange(1, len(vids))]]})
+        elif k == 'setv_again' and assigned:
+            # back to the number that was last assigned through Var.value (restarting from an initial guess after x moved the variable)
+            vid = rng.pick(sorted(assigned))
+            emit({'op': 'setv', 'id': vid, 'val': assigned[vid]})
         elif k == 'on_bound':
             # put a variable exactly on a branch bound of a conditional whose body is that variable
             cands = []
